@@ -263,8 +263,9 @@ pub fn run_case(sub: u64, histories: usize, scratch: &Path, acc: &mut Acc) {
         strategies.push((Strategy::Reader(h), gen_knobs(&mut rng)));
     }
     if rng.chance(1, 10) {
-        strategies.push((Strategy::Path { mmap: true }, Knobs::default()));
-        strategies.push((Strategy::Path { mmap: false }, Knobs::default()));
+        strategies.push((Strategy::Path { mmap: true }, Knobs { cloned: rng.chance(1, 2), ..Knobs::default() }));
+        strategies.push((Strategy::Path { mmap: false }, Knobs { cloned: rng.chance(1, 2), ..Knobs::default() }));
+        strategies.push((Strategy::Slice, Knobs { cloned: true, ..Knobs::default() }));
     }
     let mut nontrivial = false;
     for (strat, knobs) in &strategies {
